@@ -183,24 +183,23 @@ example : ∃ st, MuxPipe.run (MuxPipe.init 128)
 
 /-! ## Closing calls back into the owner: the lock discipline of hostConnPool (`Model/PoolLock.lean`)
 
-    FULL PROPERTY ("closing a connection or a session returns"): for every set of goroutines running the pool's
-    methods (Close, HandleError, Pick / Size, Conn.Close, closeWithError(err), the tail of connect()) on
-    connections of which ANY may have a transport whose Close() reports an error, under every schedule, no
-    goroutine ever waits for pool.mu while holding it, the holder of pool.mu can always move, and as long as
-    anybody has work left somebody can move.
+    FULL PROPERTY ("closing a connection or a session returns"), proved below without exclusion since the repair of
+    KF-C06-1 (props/C06.fix-KF-C06-1.diff): for every set of goroutines each running ANY sequence of the pool's
+    methods (`PoolLock.Meth`: Close, HandleError, Pick / Size, Conn.Close, closeWithError(err), the tail of
+    connect()) on connections of which ANY may have a transport whose Close() reports an error (`cerr` arbitrary),
+    under every schedule, no goroutine ever waits for pool.mu while holding it, the holder of pool.mu can always
+    move, and as long as anybody has work left somebody can move.
 
-    The unchanged code violates it at one site (KF-C06-1, `C06_pool_cex_connect_after_close`): hostConnPool.connect
-    closes a connection that finished connecting after the pool was closed UNDER pool.mu. The theorems below are
-    therefore `_partial`: hypothesis `hp` (`PoolLock.ok cerr false`) admits the tail of connect() only for
-    connections whose transport reports no Close error; everything else — Close, HandleError, Pick, Conn.Close and
-    closeWithError(err) on faulty transports, in any number and any order — is covered. -/
+    Before the repair hostConnPool.connect closed a connection that finished connecting after the pool was closed
+    UNDER pool.mu (`PoolLock.pConnectTailOld`); `C06_pool_cex_connect_after_close_old` keeps the kernel-checked
+    counterexample about that OLD definition as a regression witness (replay `cf 4 2 01 0 1 P`). -/
 
-/-- the programs of the pool's methods respect the lock discipline, whatever the transports do on Close … -/
+/-- the programs of the pool's methods respect the lock discipline, whatever the transports do on Close -/
 theorem C06_pool_methods_ok (cerr : Nat → Bool) (c : Nat) :
     PoolLock.ok cerr false PoolLock.pClose = true ∧ PoolLock.ok cerr false (PoolLock.pHandleError c) = true ∧
     PoolLock.ok cerr false PoolLock.pPick = true ∧ PoolLock.ok cerr false [.connClose c] = true ∧
     PoolLock.ok cerr false [.connError c] = true ∧
-    PoolLock.ok cerr false (PoolLock.pConnectTail c) = !cerr c := by
+    PoolLock.ok cerr false (PoolLock.pConnectTail c) = true := by
   simp [PoolLock.ok, PoolLock.pClose, PoolLock.pHandleError, PoolLock.pPick, PoolLock.pConnectTail]
 
 /-- … and so does every sequence of them run by one goroutine -/
@@ -208,11 +207,18 @@ theorem C06_pool_methods_compose (cerr : Nat → Bool) (a b : List PoolLock.Inst
     (ha : PoolLock.ok cerr false a = true) (hb : PoolLock.ok cerr false b = true) : PoolLock.ok cerr false (a ++ b) = true := by
   rw [PoolLock.ok_append cerr a b false ha]; exact hb
 
-/-- no goroutine ever waits for pool.mu while holding it (partial: see above) -/
-theorem C06_pool_no_self_deadlock_partial (cerr : Nat → Bool) (conns : List Nat) (prog : Nat → List PoolLock.Instr)
-    (hp : ∀ t, PoolLock.ok cerr false (prog t) = true) (ts : List Nat) (st : PoolLock.St)
-    (hr : PoolLock.run cerr (PoolLock.init conns prog) ts = some st) (t : Nat) : PoolLock.selfDeadlocked st t = false := by
-  have inv := PoolLock.linv_run cerr ts _ st (PoolLock.linv_init cerr conns prog hp) hr t
+/-- the lock-discipline invariant holds in every reachable state of goroutines that run sequences of the pool's methods -/
+theorem pool_inv (cerr : Nat → Bool) (conns : List Nat) (ms : Nat → List PoolLock.Meth) (ts : List Nat) (st : PoolLock.St)
+    (hr : PoolLock.run cerr (PoolLock.init conns (fun t => PoolLock.progOf (ms t))) ts = some st) : PoolLock.LInv cerr st :=
+  PoolLock.linv_run cerr ts _ st (PoolLock.linv_init cerr conns _ (fun t => PoolLock.ok_progOf cerr (ms t))) hr
+
+/-- no goroutine ever waits for pool.mu while holding it: any goroutines, any sequences of the pool's methods, any
+    transports (faulty Close or not), any schedule -/
+theorem C06_pool_no_self_deadlock (cerr : Nat → Bool) (conns : List Nat) (ms : Nat → List PoolLock.Meth)
+    (ts : List Nat) (st : PoolLock.St)
+    (hr : PoolLock.run cerr (PoolLock.init conns (fun t => PoolLock.progOf (ms t))) ts = some st) (t : Nat) :
+    PoolLock.selfDeadlocked st t = false := by
+  have inv := pool_inv cerr conns ms ts st hr t
   unfold PoolLock.selfDeadlocked
   split
   · rename_i r hpr
@@ -222,33 +228,34 @@ theorem C06_pool_no_self_deadlock_partial (cerr : Nat → Bool) (conns : List Na
   · rfl
 
 /-- whoever holds pool.mu can always move: a goroutine blocked on pool.mu (Pick, Size, HandleError, a second Close)
-    waits for somebody who is not blocked (partial: see above) -/
-theorem C06_pool_holder_moves_partial (cerr : Nat → Bool) (conns : List Nat) (prog : Nat → List PoolLock.Instr)
-    (hp : ∀ t, PoolLock.ok cerr false (prog t) = true) (ts : List Nat) (st : PoolLock.St)
-    (hr : PoolLock.run cerr (PoolLock.init conns prog) ts = some st) (t : Nat) (hh : st.holder = some t) :
-    (PoolLock.step cerr st t).isSome = true :=
-  PoolLock.holder_steps cerr st t (PoolLock.linv_run cerr ts _ st (PoolLock.linv_init cerr conns prog hp) hr) hh
+    waits for somebody who is not blocked -/
+theorem C06_pool_holder_moves (cerr : Nat → Bool) (conns : List Nat) (ms : Nat → List PoolLock.Meth)
+    (ts : List Nat) (st : PoolLock.St)
+    (hr : PoolLock.run cerr (PoolLock.init conns (fun t => PoolLock.progOf (ms t))) ts = some st) (t : Nat)
+    (hh : st.holder = some t) : (PoolLock.step cerr st t).isSome = true :=
+  PoolLock.holder_steps cerr st t (pool_inv cerr conns ms ts st hr) hh
 
-/-- no global deadlock: as long as some goroutine has not finished, some goroutine can move (partial: see above) -/
-theorem C06_pool_never_stuck_partial (cerr : Nat → Bool) (conns : List Nat) (prog : Nat → List PoolLock.Instr)
-    (hp : ∀ t, PoolLock.ok cerr false (prog t) = true) (ts : List Nat) (st : PoolLock.St)
-    (hr : PoolLock.run cerr (PoolLock.init conns prog) ts = some st) (u : Nat) (hu : st.prog u ≠ []) :
-    ∃ t, (PoolLock.step cerr st t).isSome = true :=
-  PoolLock.some_thread_steps cerr st u (PoolLock.linv_run cerr ts _ st (PoolLock.linv_init cerr conns prog hp) hr) hu
+/-- no global deadlock: as long as some goroutine has not finished, some goroutine can move -/
+theorem C06_pool_never_stuck (cerr : Nat → Bool) (conns : List Nat) (ms : Nat → List PoolLock.Meth)
+    (ts : List Nat) (st : PoolLock.St)
+    (hr : PoolLock.run cerr (PoolLock.init conns (fun t => PoolLock.progOf (ms t))) ts = some st) (u : Nat)
+    (hu : st.prog u ≠ []) : ∃ t, (PoolLock.step cerr st t).isSome = true :=
+  PoolLock.some_thread_steps cerr st u (pool_inv cerr conns ms ts st hr) hu
 
-/-- with props/C06.fix-KF-C06-1.diff (connect() gives pool.mu back before it closes the late connection) the tail of
-    connect() respects the discipline for EVERY connection, faulty transport or not: the hypothesis `hp` of the three
-    theorems above then excludes nothing that the pool's methods do, i.e. they become the full property -/
-theorem C06_pool_fixed_connect_ok (cerr : Nat → Bool) (c : Nat) :
-    PoolLock.ok cerr false (PoolLock.pConnectTailFixed c) = true := by
-  simp [PoolLock.ok, PoolLock.pConnectTailFixed]
+/-- the formerly failing history (KF-C06-1) on the repaired connect(): goroutine 0 closes the pool; goroutine 1 is the
+    tail of connect() for connection 7, whose transport reports an error from Close. connect() finds the pool closed,
+    gives the lock back, closes the connection; HandleError gets the lock; everybody finishes. -/
+theorem C06_pool_late_connect_after_close_ok :
+    ∃ st, PoolLock.run (fun c => c == 7) (PoolLock.init [1] (fun t => PoolLock.progOf (if t = 0 then [.close] else if t = 1 then [.connectTail 7] else [])))
+        [0, 0, 0, 0, 0, 1, 1, 1, 1, 1, 1] = some st ∧
+      st.holder = none ∧ st.closes 7 = 1 ∧ st.closes 1 = 1 ∧ st.prog 0 = [] ∧ st.prog 1 = [] := by
+  refine ⟨_, rfl, ?_, ?_, ?_, ?_, ?_⟩ <;> decide
 
-/-- Counterexample on the code that exists (KF-C06-1): goroutine 0 closes the pool; goroutine 1 is the tail of
-    connect() for connection 7, whose transport reports an error from Close. connect() finds the pool closed and
-    closes the connection under pool.mu; closeWithError reports the transport's error to HandleError, which waits
-    for pool.mu on the goroutine that holds it. (replay: `cfk 4 2 01 0 1 P`) -/
-theorem C06_pool_cex_connect_after_close :
-    ∃ st, PoolLock.run (fun c => c == 7) (PoolLock.init [1] (fun t => if t = 0 then PoolLock.pClose else if t = 1 then PoolLock.pConnectTail 7 else []))
+/-- Regression witness about the OLD tail of connect() (before the repair of KF-C06-1, NOT the code that exists):
+    connect() found the pool closed and closed the connection under pool.mu; closeWithError reported the transport's
+    error to HandleError, which waited for pool.mu on the goroutine that held it. -/
+theorem C06_pool_cex_connect_after_close_old :
+    ∃ st, PoolLock.run (fun c => c == 7) (PoolLock.init [1] (fun t => if t = 0 then PoolLock.pClose else if t = 1 then PoolLock.pConnectTailOld 7 else []))
         [0, 0, 0, 0, 0, 1, 1, 1] = some st ∧
       PoolLock.selfDeadlocked st 1 = true ∧ st.holder = some 1 ∧ PoolLock.step (fun c => c == 7) st 1 = none := by
   refine ⟨_, rfl, ?_, ?_, ?_⟩ <;> decide
